@@ -202,7 +202,9 @@ def kf_matches(entry, sig, detail):
         import re
         if not re.search(m["sig_regex"], sig):
             return False
-    if "sig" not in m and "sig_prefix" not in m and "sig_regex" not in m:
+    if "sig_in" in m and sig not in m["sig_in"]:
+        return False
+    if "sig" not in m and "sig_prefix" not in m and "sig_regex" not in m and "sig_in" not in m:
         return False
     where = m.get("where")
     if where:
